@@ -155,7 +155,8 @@ def make_db(scheme, cfg, profile, rnd):
 
 
 def run_labels(job):
-    scheme, gi, cfg, profile, sigma, sd = job
+    scheme, gi, cfg, profile, sigma, sd = job[:6]
+    ranked = len(job) > 6 and job[6]
     rnd = random.Random(sd)
     db = make_db(scheme, cfg, profile, rnd)
     cfg = se.fit(scheme, cfg, profile, db)
@@ -184,7 +185,14 @@ def run_labels(job):
         t2 = t2 + [(n, []) for n, _ in t1[len(t2):]]              # a missing table shows as foreign / missing labels
     for (name, a), (_n2, b) in zip(t1, t2):
         where = {lab: i + 1 for i, lab in enumerate(a)}
-        rec["tables"].append({"name": name, "a": [list(x) for x in a], "b": [list(x) for x in b], "bpos": [where.get(x, 0) for x in b]})
+        if ranked:
+            # large tables: every label is replaced by <<its rank among all labels of the two sequences>> - an order
+            # isomorphism, so "sorted" and "same sequence" are what they were
+            rank = {lab: i for i, lab in enumerate(sorted(set(map(bytes, a)) | set(map(bytes, b))))}
+            ra, rb = [[rank[bytes(x)]] for x in a], [[rank[bytes(x)]] for x in b]
+        else:
+            ra, rb = [list(x) for x in a], [list(x) for x in b]
+        rec["tables"].append({"name": name, "a": ra, "b": rb, "bpos": [where.get(x, 0) for x in b]})
         out["meta"]["foreign"] = out["meta"].get("foreign", 0) + sum(1 for x in b if x not in where)
     return out
 
@@ -467,7 +475,7 @@ def main(argv_tier=None, replay_path=None):
         with open(replay_path) as fh:
             m = json.load(fh)["meta"]
         if m["kind"] == "labels":
-            o = run_labels((m["scheme"], m["gi"], m["cfg"], m["p"], m["sigma"], m["seed"]))
+            o = run_labels((m["scheme"], m["gi"], m["cfg"], m["p"], m["sigma"], m["seed"], len(m["p"]) >= 100))
         else:
             o = run_moves((m["scheme"], m["gi"], m["cfg"], m["p"], m["seed"]))
         verdicts, _ = validate_traces("Trace_Order", [strip(0, o)])
@@ -516,6 +524,13 @@ def main(argv_tier=None, replay_path=None):
                 sg = list(range(1, k + 1))
                 rnd.shuffle(sg)
                 jobs.append((s, gi, cfg, p, sg, sd + len(jobs)))
+    # large databases (more than 2^14 keyword-identifier pairs: batching / chunked construction thresholds), keyword order
+    # reversed; labels are passed to TLC as ranks
+    big_schemes = LABEL_SCHEMES if tr == "thorough" else LABEL_SCHEMES[(sd % 2)::2] + ["CJJ14.PiBas"]
+    for s in dict.fromkeys(big_schemes):
+        k = 170
+        p = [rnd.randint(100, 140) for _ in range(k)]
+        jobs.append((s, -4, sc.default_config(s), p, list(range(k, 0, -1)), sd + len(jobs), True))
     # ---- (ii) model: placement bounds, usable families
     cands = move_candidates(tr, rnd)
     fam, inst_out, rp = model_places([(s, gi, cfg, p) for s, gi, cfg, p in cands])
